@@ -91,7 +91,9 @@ class ElemKind(object):
         o.ref = r
         cache[key] = (r, o)
         if self.valid is not None:
-            ctx.assume(ctx.as_goal(ctx.call_spec(self.valid, {"a": o})))
+            import inspect as _insp
+            pname = list(_insp.signature(self.valid).parameters)[0]
+            ctx.assume(ctx.as_goal(ctx.call_spec(self.valid, {pname: o})))
         o.frozen = True
         return o
 
@@ -206,6 +208,12 @@ class Fold(object):
         if not isinstance(seq, SSeq):
             ctx.unsupported("fold over %r" % type(seq))
         F = self.uf()
+        if ("unit-axiom", self.name) not in ctx.fold_done:
+            ctx.fold_done.add(("unit-axiom", self.name))
+            if self.kind == "bytes":
+                ctx.assume_raw(F(z3.Empty(RSEQ)) == z3.Empty(BSEQ))
+            else:
+                ctx.assume_raw(F(z3.Empty(RSEQ)) == 0)
         self._instantiate(ctx, seq, F)
         t = F(seq.term)
         return SBytes(term=t) if self.kind == "bytes" else SInt(t)
